@@ -301,20 +301,22 @@ def factory_case(cid, which, rng):
                 exp = np.array([shares @ g[list(r_), :] + inten * np.sqrt(V[tuple(r_) + (slice(None),)]) for r_ in xm])
                 case["d"] = g.astype(int).tolist(); case["c"] = [1] * nn
                 case["dataok"] = bool(U.shape == exp.shape and np.allclose(U, exp, atol=1e-9))
-            elif which == "ohv.from_pgmat_gpmod":
+            elif which in ("ohv.from_pgmat_gpmod", "ohv.from_pgmat_gpmod[large]"):
                 # identical inbred lines on a map with marker deserts (equal-width blocks stay empty): whatever the blocks
                 # are, the optimal haploid value of any cross of clones is the clone's own value; with distinct lines it
                 # lies between the better parent and the marker-wise optimum
                 from pybrops.popgen.gmat.DensePhasedGenotypeMatrix import DensePhasedGenotypeMatrix
                 cls = get("OptimalHaploidValueSelectionProblem", "OptimalHaploidValueSubsetSelectionProblem")
                 pm = rng.randrange(5, 9)
+                # [large]: enough candidates for more than 1024 cross configurations (the factory works through them in chunks)
+                n_, names_ = (n, names) if not which.endswith("[large]") else (lambda k: (k, ["L%03d" % i for i in range(k)]))(rng.choice([46, 47, 50, 64]))
                 clones = rng.random() < 0.5
-                H = np.array([[rng.randrange(2) for _ in range(pm)] for _ in range(n)], dtype="int8")
+                H = np.array([[rng.randrange(2) for _ in range(pm)] for _ in range(n_)], dtype="int8")
                 if clones:
                     H[:] = H[0]
                 gp = sorted(rng.choice([0.0, 0.0, 0.01, 0.02, 0.03, 0.5, 0.95, 1.0, 1.0]) for _ in range(pm))
                 gp[0] = 0.0; gp[-1] = 1.0
-                pg = DensePhasedGenotypeMatrix(np.stack([H, H]), taxa=np.array(names, dtype=object), taxa_grp=np.zeros(n, dtype="int64"),
+                pg = DensePhasedGenotypeMatrix(np.stack([H, H]), taxa=np.array(names_, dtype=object), taxa_grp=np.zeros(n_, dtype="int64"),
                                                vrnt_chrgrp=np.ones(pm, dtype="int64"), vrnt_phypos=np.arange(1, pm + 1, dtype="int64"),
                                                vrnt_genpos=np.array(gp), vrnt_xoprob=np.array([0.5] + [0.1] * (pm - 1)))
                 pg.group_vrnt()
@@ -372,7 +374,7 @@ def run(ctx):
     for _ in range(reps * 2):
         allc.append(pafd_case(len(allc) + 1, rng))
     for which in ("ebv.from_bvmat", "gebv.from_gmat_gpmod", "ocs.from_bvmat_gmat", "mgr.from_gmat", "embv.from_pgmat_gpmod", "ohv.from_pgmat_gpmod",
-                  "uc2.from_pgmat_gpmod", "uc3.from_pgmat_gpmod"):
+                  "uc2.from_pgmat_gpmod", "uc3.from_pgmat_gpmod", "ohv.from_pgmat_gpmod[large]"):
         for _ in range(reps):
             allc.append(factory_case(len(allc) + 1, which, rng))
     verd = cases.validate(ctx, "SelObjective_Trace", "SelObjective_Trace.cfg",
